@@ -254,7 +254,6 @@ func (sc *SortCtx) elemFn(ss string) string {
 		es := sc.sliceElem[ss]
 		sc.declFun(n, fmt.Sprintf("(declare-fun %s (%s Int) %s)", n, ss, es))
 		sc.axiom(n, fmt.Sprintf("(assert (forall ((s %s) (i Int)) (! (= (%s s i) (select (arr_%s s) (+ (off_%s s) i))) :pattern ((%s s i)))))", ss, n, ss, ss, n))
-		sc.axiom(n+"-rev", fmt.Sprintf("(assert (forall ((s %s) (j Int)) (! (= (select (arr_%s s) j) (%s s (- j (off_%s s)))) :pattern ((select (arr_%s s) j)))))", ss, ss, n, ss, ss))
 	}
 	return n
 }
@@ -299,6 +298,17 @@ func (sc *SortCtx) mapSorts(m *types.Map) (dom, val, ks, vs string) {
 		sc.axiom(card+"-del", fmt.Sprintf("(assert (forall ((d (Array %s Bool)) (k %s)) (! (= (%s (store d k false)) (ite (select d k) (- (%s d) 1) (%s d))) :pattern ((%s (store d k false))))))", ks, ks, card, card, card, card))
 	}
 	return
+}
+
+// constArr: an array whose elements are all z, for element values that are not SMT literals
+// (cvc5 only accepts values under "as const").
+func (sc *SortCtx) constArr(arrSort, z string) string {
+	n := "constarr_" + mangle(arrSort)
+	if !sc.seenFun[n] {
+		sc.declFun(n, fmt.Sprintf("(declare-const %s %s)", n, arrSort))
+		sc.axiom(n, fmt.Sprintf("(assert (forall ((i Int)) (! (= (select %s i) %s) :pattern ((select %s i)))))", n, z, n))
+	}
+	return n
 }
 
 func (sc *SortCtx) cardFn(ks string) string { return "card_" + mangle(ks) }
@@ -373,7 +383,11 @@ func (sc *SortCtx) zeroOfSort(s string, t types.Type) string {
 				et = a.Elem()
 			}
 		}
-		return fmt.Sprintf("((as const %s) %s)", s, sc.zeroOfSort(el, et))
+		z := sc.zeroOfSort(el, et)
+		if z == "0" || z == "false" || z == "0.0" {
+			return fmt.Sprintf("((as const %s) %s)", s, z)
+		}
+		return sc.constArr(s, z)
 	}
 	panic("zeroOfSort: " + s)
 }
@@ -481,9 +495,7 @@ func solve(q *Query, workdir string, timeoutS int, allSolvers bool) {
 		if q.Result == "" || q.Result == "error" {
 			q.Result, q.Solver, q.Model = res, sp.name, out
 		}
-		if !allSolvers && i >= 1 {
-			break
-		}
+		_ = allSolvers
 	}
 }
 
